@@ -97,6 +97,17 @@ def _t_within(v, spec):
     return v in spec
 
 
+def _t_as_is(v):
+    """A predicate that answers with a truthy / falsy value that is not a bool (the value itself).  Meaningful for a
+    query used on its own or under ~ (inside & and | the DSL combines the operands' results with the & and | operators,
+    which is only boolean logic for bools)."""
+    return v
+
+
+def _t_length(v):
+    return len(v) if isinstance(v, str) else 0
+
+
 def _make_above(limit):
     def above(v):  # every closure made here shares module and qualified name
         return isinstance(v, (int, float)) and not isinstance(v, bool) and v > limit
@@ -123,6 +134,8 @@ TESTS = {
     "startswith_arg": _t_startswith_arg,
     "between_args": _t_between_args,
     "within": _t_within,
+    "as_is": _t_as_is,
+    "length": _t_length,
     "above_0": _ABOVE_0,
     "above_1": _ABOVE_1,
     "lam_a": _LAM_A,
